@@ -495,6 +495,21 @@ class World:
         self.tasks[name].cancel()
         self.loop.quiesce()
 
+    def _is_wakeup_of(self, h, task):
+        return getattr(h._callback, "__self__", None) is task
+
+    def then_cancel_late(self, trigger, victim):
+        """`trigger()` makes the last thing task `victim` waits for happen; every ready handle EXCEPT the victim's own
+        wake-up is run, then the victim is cancelled - between 'what it awaited is complete' and 'it runs again' - and
+        the loop runs on.  Returns whether the victim really was about to wake."""
+        t = self.tasks[victim]
+        trigger()
+        self.loop.quiesce_where(lambda h: not self._is_wakeup_of(h, t))
+        pending = any(self._is_wakeup_of(h, t) for h in self.loop.live_ready())
+        t.cancel()
+        self.loop.quiesce()
+        return pending
+
     def status(self, name):
         t = self.tasks.get(name)
         if t is None:
